@@ -8,7 +8,10 @@ from mako):
   * the inventory of `visit_*` attributes of class `SourceGenerator` (methods, `visit_X = factory(...)`
     assignments, chained assignments; names removed by `del` are dropped) - the node-kind names;
   * the same inventory for `pyparser.FindIdentifiers`;
-  * `pyparser.reserved` (set literal of names never reported as undeclared).
+  * `pyparser.reserved` (set literal of names never reported as undeclared);
+  * from mako/parsetree.py, mako/ast.py, mako/pyparser.py: which field of `FunctionDecl` the `declared_identifiers()` of
+    DefTag/BlockTag/PageTag return, which one `DefTag.undeclared_identifiers()` subtracts, what `allargnames` is made
+    of and which `ast.arguments` fields `ParseFunc` puts into `argnames`/`kwargnames`.
 The model (PyExpr/Model.lean) consults these: an operator without an entry is the `KeyError` of the real
 code (`none`), a node kind without a `visit_*` goes through `generic_visit` (children only).
 """
@@ -20,6 +23,8 @@ from regen import group, RegenError, parse, module_assign, find_class, const, le
 
 REL_A = "mako/_ast_util.py"
 REL_P = "mako/pyparser.py"
+REL_T = "mako/parsetree.py"
+REL_S = "mako/ast.py"
 
 
 def _op_table(tree, name):
@@ -90,6 +95,94 @@ def _lean_names(name, doc, items):
     return "/-- %s -/\ndef %s : List (List Char) := [\n%s\n]\n" % (doc, name, body)
 
 
+def _method(cls, name, rel):
+    for node in cls.body:
+        if isinstance(node, ast.FunctionDef) and node.name == name:
+            return node
+    raise RegenError("%s: class %s has no method %s" % (rel, cls.name, name))
+
+
+def _self_attr_chain(node):
+    """`self.a.b` -> ['a', 'b'] (None when the expression is something else)"""
+    out = []
+    while isinstance(node, ast.Attribute):
+        out.append(node.attr)
+        node = node.value
+    if isinstance(node, ast.Name) and node.id == "self":
+        return out[::-1]
+    return None
+
+
+def _returned(fn, rel, what):
+    rets = [n for n in ast.walk(fn) if isinstance(n, ast.Return)]
+    if len(rets) != 1 or rets[0].value is None:
+        raise RegenError("%s: %s does not have exactly one return" % (rel, what))
+    return rets[0].value
+
+
+def _declared_field(cls, rel):
+    """`declared_identifiers` returns `self.<decl>.<field>`: the field"""
+    ch = _self_attr_chain(_returned(_method(cls, "declared_identifiers", rel), rel, cls.name + ".declared_identifiers"))
+    if not ch or len(ch) != 2:
+        raise RegenError("%s: %s.declared_identifiers does not return self.<decl>.<field>" % (rel, cls.name))
+    return ch[1]
+
+
+def _subtracted_field(cls, rel):
+    """`undeclared_identifiers` returns `(…).difference(self.<decl>.<field>)` as its outermost operation: the field
+    ('' when nothing of the kind is subtracted)"""
+    v = _returned(_method(cls, "undeclared_identifiers", rel), rel, cls.name + ".undeclared_identifiers")
+    if isinstance(v, ast.Call) and isinstance(v.func, ast.Attribute) and v.func.attr == "difference" and len(v.args) == 1:
+        ch = _self_attr_chain(v.args[0])
+        if ch and len(ch) == 2:
+            return ch[1]
+    return ""
+
+
+def _parsefunc_sources(tp):
+    """ParseFunc.visit_FunctionDef: which fields of `ast.arguments` feed `argnames` / `kwargnames`"""
+    fn = _method(find_class(tp, "ParseFunc", REL_P), "visit_FunctionDef", REL_P)
+    src = {"argnames": [], "kwargnames": []}
+    for node in ast.walk(fn):
+        if isinstance(node, ast.Assign) and len(node.targets) == 1 and isinstance(node.targets[0], ast.Name) \
+                and node.targets[0].id in src:
+            for sub in ast.walk(node.value):
+                ch = None
+                if isinstance(sub, ast.Attribute):
+                    parts = []
+                    x = sub
+                    while isinstance(x, ast.Attribute):
+                        parts.append(x.attr)
+                        x = x.value
+                    if isinstance(x, ast.Name) and x.id == "node" and parts[-1] == "args" and len(parts) == 2:
+                        ch = parts[0]
+                if ch and ch not in src[node.targets[0].id]:
+                    src[node.targets[0].id].append(ch)
+        if isinstance(node, ast.Call) and isinstance(node.func, ast.Attribute) and node.func.attr == "append" \
+                and isinstance(node.func.value, ast.Name) and node.func.value.id in src:
+            for sub in ast.walk(node.args[0]):
+                if isinstance(sub, ast.Attribute) and isinstance(sub.value, ast.Attribute) \
+                        and isinstance(sub.value.value, ast.Name) and sub.value.value.id == "node" \
+                        and sub.value.attr == "args" and sub.attr not in src[node.func.value.id]:
+                    src[node.func.value.id].append(sub.attr)
+    if not src["argnames"] or not src["kwargnames"]:
+        raise RegenError("%s: ParseFunc.visit_FunctionDef: argnames/kwargnames not understood" % REL_P)
+    return src
+
+
+def _allargnames_parts(ts):
+    fd = find_class(ts, "FunctionDecl", REL_S)
+    v = _returned(_method(fd, "allargnames", REL_S), REL_S, "FunctionDecl.allargnames")
+    parts = []
+    for sub in ast.walk(v):
+        ch = _self_attr_chain(sub) if isinstance(sub, ast.Attribute) else None
+        if ch and len(ch) == 1 and ch[0] not in parts:
+            parts.append(ch[0])
+    if not parts:
+        raise RegenError("%s: FunctionDecl.allargnames not understood" % REL_S)
+    return parts
+
+
 @group("PyExpr")
 def gen(repo) -> str:
     ta = parse(repo, REL_A)
@@ -117,5 +210,24 @@ def gen(repo) -> str:
         raise RegenError("%s: reserved is not a set/list/tuple literal" % REL_P)
     names = sorted({const(e, str, "reserved element") for e in rs.elts})
     out.append(_lean_names("reserved", "`pyparser.reserved`: " + " ".join(names), names))
+    # which parameters of its own signature a <%def>/<%block>/<%page> knows when its attribute expressions
+    # (filter=, cache_key, …) are analysed
+    tt = parse(repo, REL_T)
+    ts = parse(repo, REL_S)
+    for cls, lean in (("DefTag", "defTag"), ("BlockTag", "blockTag"), ("PageTag", "pageTag")):
+        c = find_class(tt, cls, REL_T)
+        d = _declared_field(c, REL_T)
+        out.append("/-- `%s.declared_identifiers()` returns this field of its `FunctionDecl` -/\ndef %sDeclared : List Char := %s\n"
+                   % (cls, lean, lean_str(d)))
+    sub = _subtracted_field(find_class(tt, "DefTag", REL_T), REL_T)
+    out.append("/-- `DefTag.undeclared_identifiers()` ends in `.difference(self.function_decl.<this field>)` -/\n"
+               "def defTagSubtracted : List Char := %s\n" % lean_str(sub))
+    out.append(_lean_names("allargnamesParts", "`FunctionDecl.allargnames` concatenates these fields: "
+                           + " ".join(_allargnames_parts(ts)), _allargnames_parts(ts)))
+    pf = _parsefunc_sources(tp)
+    out.append(_lean_names("argnamesSources", "`ParseFunc`: `argnames` is built from these fields of `ast.arguments`: "
+                           + " ".join(pf["argnames"]), pf["argnames"]))
+    out.append(_lean_names("kwargnamesSources", "`ParseFunc`: `kwargnames` is built from these fields of `ast.arguments`: "
+                           + " ".join(pf["kwargnames"]), pf["kwargnames"]))
     out.append("end MakoModel.Generated.PyExpr\n")
     return "\n".join(out)
